@@ -332,12 +332,33 @@ impl Generator
 		size_in_bits as usize
 	}
 
+	/// A private constant or function of the module that is named like a
+	/// C function must not keep that symbol, or LLVM renames the declaration
+	/// of the C function (and the linker cannot find `write.1`).
+	fn release_symbol(module: LLVMModuleRef, name: &CString)
+	{
+		unsafe {
+			let global = LLVMGetNamedGlobal(module, name.as_ptr());
+			if !global.is_null()
+			{
+				LLVMSetValueName(global, cstr!(""));
+			}
+			let function = LLVMGetNamedFunction(module, name.as_ptr());
+			if !function.is_null()
+				&& LLVMGetLinkage(function) == LLVMLinkage::LLVMPrivateLinkage
+			{
+				LLVMSetValueName(function, cstr!(""));
+			}
+		}
+	}
+
 	fn get_trap_like_intrinsic(&mut self, name: &'static str) -> LLVMValueRef
 	{
 		let function = self.used_intrinsics.entry(name).or_insert_with(|| {
 			let linkage = LLVMLinkage::LLVMExternalLinkage;
 			let callconv = LLVMCallConv::LLVMCCallConv;
 			let function_name = CString::new(name.as_bytes()).unwrap();
+			Self::release_symbol(self.module, &function_name);
 
 			unsafe {
 				let return_type = LLVMVoidTypeInContext(self.context);
@@ -365,6 +386,7 @@ impl Generator
 			let linkage = LLVMLinkage::LLVMExternalLinkage;
 			let callconv = LLVMCallConv::LLVMCCallConv;
 			let function_name = CString::new(name.as_bytes()).unwrap();
+			Self::release_symbol(self.module, &function_name);
 			let is_var_args = 1;
 
 			unsafe {
@@ -402,6 +424,7 @@ impl Generator
 			let linkage = LLVMLinkage::LLVMExternalLinkage;
 			let callconv = LLVMCallConv::LLVMCCallConv;
 			let function_name = CString::new(name.as_bytes()).unwrap();
+			Self::release_symbol(self.module, &function_name);
 
 			unsafe {
 				let fd_type = LLVMInt32TypeInContext(self.context);
